@@ -76,7 +76,8 @@ class Lower:
             return self._template(t, depth)      # "...".format(...), "".join([...]), str(x)
         if tag == "call":
             f = t[1]
-            if f == ("builtin", "str") and len(t[2]) == 2 and t[2][1] == ("const", "ascii") and not t[3]:
+            if f == ("builtin", "str") and ((len(t[2]) == 2 and t[2][1] == ("const", "ascii") and not t[3]) or
+                                             (len(t[2]) == 1 and t[3] == (("encoding", ("const", "ascii")),))):
                 return self.lower(t[2][0], depth + 1)       # str(b, "ascii") is b.decode("ascii")
             if f[0] == "attr" and f[2] in ("lower", "casefold"):
                 return True
@@ -197,7 +198,8 @@ def h2(ctx: Ctx):
             ctx.instance(rule)
             # on every path class: the host is absent (None is returned as it is) or known to be free of ':'
             ok = all(truth(("cmp", "Is", raws[0], NONE), f) is True or
-                     any((not fv) and k[0] == "cmp" and k[1] == "In" and k[2] == ("const", ":") for k, fv in f.items())
+                     any((not fv) and k[0] == "cmp" and k[1] == "In" and k[2] == ("const", ":") for k, fv in f.items()) or
+                     any(truth(("cmp", "In", ("const", ":"), x), f) is False for x in raws)        # find(':') == -1, partition ...
                      for f in alternatives(s.facts, raws[0]))
             ctx.ob(rule, fi.qual, f"return {show(v)[:60]}", ok, "host returned without brackets although it may contain ':'",
                    where(fi, node), sample="':' not in host")
